@@ -308,7 +308,8 @@ pub fn run_scenario(sc: &Scenario, policy: Policy, run_id: u64, lines: &mut Vec<
     // final read-back by the main thread: index -> value for everything that was published
     sched.user("joined", String::new());
     run_op(&vec, &sched, &Op::Count);
-    let n = vec.count().min(400);
+    // (a block reserved by the main thread and never written holds nothing to read back)
+    let n = if sc.pre_reserve > 0 { 0 } else { vec.count().min(400) };
     for i in 0..n {
         run_op(&vec, &sched, &Op::Get(i));
     }
